@@ -430,3 +430,58 @@ Example C11_source_ex :
   idx_val v = true /\ np_plain (np_getitem (shape x) (dat x) (abs_items v)) (abs_items v) = true /\
   res_of (gen_getitem x v) = Some (mkv [1; 10] [0; 1; 2; 3; 4; 5; 6; 7; 8; 9] 5 1000 1 (LMany [70]) (LOne 90)).
 Proof. exact source_ex. Qed.
+
+(* ================================================================== translator tie, part 2: pipeline.ensure_dim and pipeline.concat on
+   annotated pieces, regenerated from the source (gen_ensure_dim, gen_concat in coq/gen/PDataGen.v; vocabulary PData/TieLibConcat.v;
+   proofs PData/ProofsTieConcat.v).  [pyaxis] the axis argument ('time' / 'channel' / 'epoch', an int, anything else), [dim_of] the
+   dimension it names (pinned text of dim_axis), [lift_c] / [lift_arrs] the model's result in the generated functions' result type,
+   [first_le3 ps] the first piece has at most 3 dimensions. *)
+From PV Require Import PData.TieLibConcat PData.ProofsTieConcat.
+
+Theorem C11_source_ensure_dim : forall ps dm, gen_ensure_dim ps dm = lift_arrs (ensure_dim ps dm).
+Proof. exact gen_ensure_dim_tie. Qed.
+Print Assumptions C11_source_ensure_dim.
+(* concat as the source has it - the ndim / rate / contiguity / channel / metadata tests with their errors, the merged labels,
+   the annotations of the result - = the model, for every list of annotated pieces and every axis value *)
+Theorem C11_source_concat : forall ps ax, (dim_of ax = Some DEpoch -> first_le3 ps) ->
+  gen_concat ps ax = lift_c (concat_any (dim_of ax) (map PAnn ps)).
+Proof. exact gen_concat_tie. Qed.
+Print Assumptions C11_source_concat.
+Theorem C11_source_concat_time_channel : forall ps ax, dim_of ax <> Some DEpoch ->
+  gen_concat ps ax = lift_c (concat_any (dim_of ax) (map PAnn ps)).
+Proof. exact gen_concat_tie_time_chan. Qed.
+Print Assumptions C11_source_concat_time_channel.
+Theorem C11_source_concat_wf : forall ps ax, Forall wf ps ->
+  gen_concat ps ax = lift_c (concat_any (dim_of ax) (map PAnn ps)).
+Proof. exact gen_concat_tie_wf. Qed.
+Print Assumptions C11_source_concat_wf.
+Theorem C11_source_concat_refuses : forall ps ax,
+  (dim_of ax = None -> gen_concat ps ax = GRaise EValue) /\ (ps = [] -> gen_concat ps ax = GRaise EValue).
+Proof. exact gen_concat_refuses. Qed.
+Print Assumptions C11_source_concat_refuses.
+(* C11_concat_restores / C11_concat_rejects over the generated __getitem__ and concat *)
+Theorem C11_source_concat_restores : forall x cuts ax,
+  wf x -> cuts <> [] -> cuts_ok 0 cuts (n_time x) -> dim_of ax = Some DTime ->
+  exists ps, map (fun ix => gen_getitem x (emb_index ix)) (piece_indices 0 cuts) = map (fun p => GOk (OArr p)) ps /\
+             Forall wf ps /\ gen_concat ps ax = GOk (OArr x).
+Proof. exact source_concat_restores. Qed.
+Print Assumptions C11_source_concat_restores.
+Theorem C11_source_concat_rejects : forall ps r ax,
+  dim_of ax = Some DTime -> Forall wf ps -> gen_concat ps ax = GOk (OArr r) ->
+  exists base rest, ps = base :: rest /\ consistent base rest /\
+    s0 r = s0 base /\ fsn r = fsn base /\ fsd r = fsd base /\ chan r = chan base /\ meta r = meta base.
+Proof. exact source_concat_rejects. Qed.
+Print Assumptions C11_source_concat_rejects.
+Theorem C11_source_concat_inconsistent : forall ps ax base rest,
+  dim_of ax = Some DTime -> Forall wf ps -> ps = base :: rest -> ~ consistent base rest ->
+  exists e, gen_concat ps ax = GRaise e.
+Proof. exact source_concat_inconsistent. Qed.
+Print Assumptions C11_source_concat_inconsistent.
+Example C11_source_concat_ex :
+  let x := mk [2; 5] (-3) 1000 1 (LMany [70; 71]) (LOne 90) in
+  wf x /\ cuts_ok 0 [2; 2; 5] (n_time x) /\ dim_of (AxInt (-1)) = Some DTime /\ dim_of (AxName DTime) = Some DTime /\
+  (exists p q, gen_getitem x (emb_index (time_piece 0 2)) = GOk (OArr p) /\
+               gen_getitem x (emb_index (time_piece 3 5)) = GOk (OArr q) /\
+               gen_concat [p; q] (AxInt (-1)) = GRaise EValue) /\
+  first_le3 [x] /\ gen_concat [x; x] (AxName DEpoch) = lift_c (concat_any (Some DEpoch) (map PAnn [x; x])).
+Proof. exact source_concat_ex. Qed.
